@@ -505,8 +505,8 @@ func reported(root string, truths []fileTruth, typ, file string, line int) findi
 	return f
 }
 
-// expanded returns the calls of a test method with the calls of its same-class helpers
-// appended (one level), which is what "directly or through a helper" refers to.
+// helperCalls returns the calls written in the body of a same-class helper; "directly or
+// through a helper" looks one level deep.
 func helperCalls(t fileTruth, name string) []callRec {
 	for _, m := range t.Methods {
 		if m.Spec.Kind == "helper" && m.Spec.Name == name {
@@ -1319,8 +1319,8 @@ func init() {
 		"an assertion name never reaches 5 occurrences only through helper bodies; a method annotated @Ignore alone always makes a call; creations appear only next to at least one method call",
 		"each call is written on one line; annotations other than @Test/@Ignore, nested types, inherited helpers and JUnit 5 @Disabled are not generated",
 		"known finding (feature "+oneCallFeature+"): @Test methods with exactly one call (after helper inlining) are generated only with VERIF_NO_EXCLUDE=1 or while the finding is not listed as known")
-	pbt.Register("tree", 320, 2000, genCase, checkAPI)
-	pbt.Register("cli", 40, 150, genCLICase, checkCLI)
+	pbt.Register("tree", 1000, 2000, genCase, checkAPI)
+	pbt.Register("cli", 60, 150, genCLICase, checkCLI)
 }
 
 func TestProp(t *testing.T)   { pbt.Main(t) }
